@@ -12,6 +12,7 @@ import Simfile.Model.Objects
 import Simfile.Model.Notes
 import Simfile.Model.Group
 import Simfile.Model.Engine
+import Simfile.Model.EngineF
 import Simfile.Model.Load
 import Simfile.Model.Entry
 import Simfile.Model.EndToEnd
@@ -388,11 +389,14 @@ def handle (j : Json) : R Json := do
       | [k, x, t, t2] => pure (← k.getStr?, ← getRat x, ← getTag t, ← getTag t2)
       | _ => throw "probe expected") (← field j "probes")
     let e := mkEngine td
+    let u53 : Rat := (1 : Rat) / 9007199254740992
+    let errs := errStates u53 td
     pure (jArr (fun (p : String × Rat × Tag × Tag) =>
       let x := p.2.1; let t := p.2.2.1; let t2 := p.2.2.2
       match p.1 with
       | "time_at" => jRat (e.timeAt x t)
       | "spec_time" => jRat (Spec.timeSpec td x t)
+      | "err_time" => jRat (errTimeAtWith u53 e errs x t)
       | "bpm_at" => jRat (e.bpmAt x)
       | "spec_bpm" => jRat (if x < 0 then (td.bpms.headD (0,0)).2 else Spec.bpmOn td x)
       | "hittable" => jBool (e.hittable x)
